@@ -93,4 +93,37 @@ def connectOutbound (E : InEnv) (expected : String) (ss : List OutStream) : Conn
   | .blocked => openOutboundStreams E (dialled expected) ss 0
   | r => (disconnect (openOutboundStreams E (dialled expected) ss 0).1, r)
 
+/-! ### inbound streams and outbound connections on ONE connection list
+    `connectionList` is shared: `getOrRegister(…, outbound = false)` of an inbound stream also matches a connection this node
+    dialled (peer ID and node DID equal), and `getOrRegister(…, outbound = true)` of `connect` matches any connection with the
+    expected DID (a bootstrap contact: address and empty DID). -/
+
+/-- `connections.getOrRegister(ctx, contact.peer, true)`: false = "already has a connection" (nothing dialled) -/
+def dialOut (cs : List Conn) (addr x : String) : List Conn × Bool :=
+  if cs.any (fun c => if x == "" then c.addr == addr && c.peer.did == "" else c.peer.did == x) then (cs, false)
+  else (cs ++ [{ dialled x with addr := addr }], true)
+
+def modifyAt (cs : List Conn) (i : Nat) (f : Conn → Conn) : List Conn :=
+  match cs, i with
+  | [], _ => []
+  | c :: rest, 0 => f c :: rest
+  | c :: rest, i + 1 => c :: modifyAt rest i f
+
+inductive MEv where
+  | inOpen (s : StreamIn)                   -- handleInboundStream
+  | close (sid : Nat)                       -- an inbound stream ends
+  | dial (addr x : String)                  -- connect: getOrRegister(outbound)
+  | outStream (i : Nat) (s : OutStream)     -- openOutboundStream on the connection at index i
+  | outEnd (i : Nat)                        -- connect returns: disconnect() + remove
+  deriving Repr
+
+def stepM (E : InEnv) (cs : List Conn) : MEv → List Conn
+  | .inOpen s => (handleInbound E cs s).1
+  | .close sid => closeStream cs sid
+  | .dial a x => (dialOut cs a x).1
+  | .outStream i s => modifyAt cs i (fun c => (openOutboundStream E c s).1)
+  | .outEnd i => cs.eraseIdx i
+
+def runM (E : InEnv) (cs : List Conn) (evs : List MEv) : List Conn := evs.foldl (stepM E) cs
+
 end Nuts.C15
